@@ -22,6 +22,11 @@ pub struct AnonymousFunction {
 }
 
 impl AnonymousFunction {
+    /// The declared result type (`return_type()` is the type of the function value itself)
+    pub fn result_type(&self) -> &Type {
+        &self.return_type
+    }
+
     pub fn create_instruction(
         pair: Pair<Rule>,
         local_variables: &LocalVariables,
